@@ -43,7 +43,7 @@ NumberV(S, next) ==
   IF S = {} THEN {}
   ELSE LET x == CHOOSE x \in S : TRUE
        IN {[Ep(next, x[1], x[2], x[3]) EXCEPT !.vis = x[4]]} \cup NumberV(S \ {x}, next + 1)
-VerVisPool == NumberV({"GET", "PUT"} \X {<<Seg("lit", "a")>>, <<Seg("var", "x")>>,
+VerVisPool == NumberV({"GET", "PUT"} \X {<<>>, <<Seg("lit", "a")>>, <<Seg("var", "x")>>,
                                           <<Seg("lit", "a"), Seg("wild", "y")>>}
                         \X Ranges({2, 4}) \X BOOLEAN, 1)
 
